@@ -70,7 +70,7 @@ def make_case(rng, entry, maxn=60):
             if rng.random() < 0.5:
                 k["lorch"] = True
             return dict(entry=entry, args=[x, y, xo, yo], kw=k, meta={"grid": gk, "n": len(x), "lorch": bool(k)})
-        x, gk = grid(rng, n=int(rng.integers(2, maxn)))
+        x, gk = grid(rng, n=int(rng.integers(2, maxn)), extra=0.12, extra_kinds=["crossing", "negative"])
         xo, ok = grid(rng, n=int(rng.integers(1, maxn)) + 1)
         if rng.random() < 0.2:
             xo = np.concatenate([[-xo[-1] / 2], xo])  # negative output abscissa
@@ -107,6 +107,8 @@ def make_case(rng, entry, maxn=60):
             cutoff = float(rng.choice([np.nextafter(r[k], 0.0), r[k] * (1 - 2e-6), r[k] * (1 - 1e-9), np.nextafter(r[k], np.inf), r[k] * (1 + 2e-6)]))
         if np.sum(r <= cutoff) < 2:
             cutoff = float(r[2])
+        if rng.random() < 0.08:
+            cutoff = float(r[-1] + (rng.uniform(0, 2) if rng.random() < 0.5 else 0.0))   # the whole r grid lies inside [0, cutoff]
         dgr = unc(rng, r)
         dfq = unc(rng, q)
         opt = options(rng, None, allow_window=False)
